@@ -23,6 +23,11 @@ type c11Ctx struct {
 	p  *fw.Program
 	jq *fw.JQ
 	sc *c11Schema
+
+	callKeys   map[*fw.JQDef]map[string]bool // cache: name/arity called anywhere inside a top-level def
+	strNames   map[string]bool               // cache: every constant string of pkg/interp/*.jq
+	inlCache   map[*fw.JQDef]*fw.JQDef
+	interpList []*fw.JQDef
 }
 
 func (c *c11Ctx) pos(d *fw.JQDef) string {
@@ -34,6 +39,11 @@ func (c *c11Ctx) pos(d *fw.JQDef) string {
 
 // def resolves the unique top-level definition name/arity of a file; nil + Undecided if absent or ambiguous.
 func (c *c11Ctx) def(ru *fw.Rule, rel, name string, arity int) *fw.JQDef {
+	return c.inl(c.defRaw(ru, rel, name, arity))
+}
+
+// defRaw is def without inlining of local helper definitions (for rules that are about a local helper).
+func (c *c11Ctx) defRaw(ru *fw.Rule, rel, name string, arity int) *fw.JQDef {
 	var found []*fw.JQDef
 	for _, d := range c.jq.Defs {
 		if d.Parent == nil && d.File.Rel == rel && d.Def.Name == name && len(d.Def.Args) == arity {
